@@ -939,4 +939,190 @@ Section Main.
     - exfalso. destruct M as (c & e' & Hc & Ec & Le & G). fold k in Hc.
       destruct (db_get_of_in db _ _ (Big c e' Hc Ec Le)) as [b' G']. congruence.
   Qed.
+
+  (* the empty trie: Prove emits nothing and the empty proof is REJECTED, although
+     the key is absent (lk NEmpty k = None): completeness fails for t = NEmpty *)
+  Theorem completeness_empty_refuted resolve key :
+    exists r, hash_root H NEmpty = Some r /\ prove H resolve NEmpty key = TOk [] /\
+              verify_proof r key [] = VErr (VMissing 0) /\
+              lk NEmpty (keybytes_to_hex key) = None.
+  Proof.
+    exists (H empty_root_preimage). split; [reflexivity|]. split; [|split].
+    - unfold prove, keybytes_to_hex. destruct (nibbles_of key ++ [16]) eqn:E.
+      + destruct (nibbles_of key); discriminate.
+      + reflexivity.
+    - reflexivity.
+    - apply lk_empty.
+  Qed.
 End Main.
+
+(* ------------------------------------------------------------------ VerifyProof never panics *)
+
+Lemma split_bytes b k c r : bytesb b = true -> Raw.split b = Ok (k, c, r) ->
+  bytesb c = true /\ bytesb r = true.
+Proof.
+  intros Hb Hs. destruct (split_sound b k c r Hb Hs) as [E _]. subst b.
+  unfold chunk in Hb. rewrite !bytesb_app in Hb. lia.
+Qed.
+
+Lemma split_string_bytes b c r : bytesb b = true -> split_string b = Ok (c, r) ->
+  bytesb c = true /\ bytesb r = true.
+Proof.
+  intros Hb. unfold split_string. destruct (Raw.split b) as [[[k c'] r']|] eqn:E; [|discriminate].
+  destruct k; try discriminate; intros Hs; inversion Hs; subst; eapply split_bytes; eassumption.
+Qed.
+
+Lemma wf_hex_skipn_nib p n : forallb nibbleb p = true -> wf_hex (skipn n p) = true.
+Proof.
+  intros Hp. assert (Hs : forallb nibbleb (skipn n p) = true).
+  { rewrite <- (firstn_skipn n p), forallb_app in Hp. lia. }
+  unfold wf_hex. rewrite (has_term_nib_false _ Hs). exact Hs.
+Qed.
+
+Lemma compact_to_hex_wf c : bytesb c = true -> wf_hex (compact_to_hex c) = true.
+Proof.
+  intros Hc. unfold compact_to_hex. destruct c as [|c0 c']; [reflexivity|].
+  set (c := c0 :: c') in *. cbv zeta. unfold keybytes_to_hex.
+  pose proof (nibbles_of_nib c Hc) as Hn.
+  generalize (N.to_nat (2 - N.land (hd 0 (nibbles_of c ++ [16])) 1)). intros n.
+  destruct (hd 0 (nibbles_of c ++ [16]) <? 2).
+  - rewrite removelast_last. apply wf_hex_skipn_nib, Hn.
+  - rewrite skipn_app.
+    assert (Hs : forallb nibbleb (skipn n (nibbles_of c)) = true).
+    { rewrite <- (firstn_skipn n (nibbles_of c)), forallb_app in Hn. lia. }
+    destruct (n - length (nibbles_of c))%nat as [|m].
+    + cbn [skipn]. unfold wf_hex. rewrite has_term_app_16, removelast_last. exact Hs.
+    + replace (skipn (S m) [16]) with (@nil N) by (destruct m; reflexivity).
+      rewrite app_nil_r. unfold wf_hex. rewrite (has_term_nib_false _ Hs). exact Hs.
+Qed.
+
+Lemma forallb_nibbles p : forallb nibbleb p = true -> nibbles p.
+Proof.
+  intros Hp. unfold nibbles. apply Forall_forall. intros x Hx. rewrite forallb_forall in Hp.
+  specialize (Hp x Hx). unfold nibbleb in Hp. lia.
+Qed.
+
+(* where get can stop: nil, a value, or a hash reference with a valid remaining key *)
+Definition endok (kr : list N) (cld : node) : Prop :=
+  cld = NEmpty \/ (exists v, cld = NValue v) \/ (exists h, cld = NHash h /\ valid_key kr).
+
+Definition pgood (n : node) : Prop :=
+  forall key, valid_key key -> exists kr cld, pget n key = Some (kr, cld) /\ endok kr cld.
+
+Lemma pgood_empty : pgood NEmpty.
+Proof. intros key Hk. exists key, NEmpty. split; [reflexivity|left; reflexivity]. Qed.
+
+Lemma pgood_hash h : pgood (NHash h).
+Proof. intros key Hk. exists key, (NHash h). split; [reflexivity|right; right; eauto]. Qed.
+
+Lemma pgood_leaf k v : pgood (NShort k (NValue v)).
+Proof.
+  intros key Hk. rewrite pget_short. destruct (strip k key).
+  - exists [], (NValue v). split; [reflexivity|right; left; eauto].
+  - exists [], NEmpty. split; [reflexivity|left; reflexivity].
+Qed.
+
+Lemma pgood_ext k c : forallb nibbleb k = true -> pgood c -> pgood (NShort k c).
+Proof.
+  intros Hn Hc key Hk. rewrite pget_short. destruct (strip k key) as [r|] eqn:Hs.
+  - apply strip_some in Hs. subst key. apply forallb_nibbles in Hn.
+    assert (Rne : r <> []).
+    { intros ->. rewrite app_nil_r in Hk. exact (valid_key_not_nibbles k Hk Hn). }
+    destruct (valid_key_app_inv k r Hk Rne) as [_ Hr]. apply Hc, Hr.
+  - exists [], NEmpty. split; [reflexivity|left; reflexivity].
+Qed.
+
+Lemma pgood_full cs c16 : length cs = 16%nat -> Forall pgood cs ->
+  (c16 = NEmpty \/ exists v, c16 = NValue v) -> pgood (NFull (cs ++ [c16])).
+Proof.
+  intros HL Hcs H16 key Hk. destruct key as [|k0 kr]; [destruct Hk|]. rewrite pget_full.
+  apply valid_key_cons in Hk as [[-> ->]|[Hk0 Hkr]].
+  - change (N.to_nat 16) with 16%nat. rewrite nth_error_app2 by lia. rewrite HL. cbn [Nat.sub nth_error].
+    destruct H16 as [->|[v ->]]; cbn [pget].
+    + exists [], NEmpty. split; [reflexivity|left; reflexivity].
+    + exists [], (NValue v). split; [reflexivity|right; left; eauto].
+  - rewrite nth_error_app1 by lia.
+    destruct (nth_error cs (N.to_nat k0)) as [c|] eqn:Ec.
+    2:{ apply nth_error_None in Ec. lia. }
+    rewrite Forall_forall in Hcs. apply (Hcs c (nth_error_In _ _ Ec)), Hkr.
+Qed.
+
+Lemma ref_len_cases {A} (n : nat) (a b c : A) :
+  match n with O => a | 32%nat => b | _ => c end =
+  if Nat.eqb n 0 then a else if Nat.eqb n 32 then b else c.
+Proof. do 33 (destruct n as [|n]; [reflexivity|]). reflexivity. Qed.
+
+Lemma decode_pgood f : forall buf n, bytesb buf = true -> decode_node_f f buf = DOk n -> pgood n.
+Proof.
+  induction f as [|f IH]; intros buf n Hb Hd.
+  { Transparent decode_node_f. discriminate Hd. Opaque decode_node_f. }
+  rewrite decode_node_f_S in Hd. destruct buf as [|b0 buf']; [discriminate|].
+  set (buf := b0 :: buf') in *.
+  destruct (split_list buf) as [[elems rest0]|] eqn:Esl; [|discriminate].
+  assert (He : bytesb elems = true).
+  { unfold split_list in Esl. destruct (Raw.split buf) as [[[k c] r]|] eqn:E; [|discriminate].
+    destruct k; try discriminate. inversion Esl; subst. eapply split_bytes; eassumption. }
+  destruct (count_values elems) as [c [e|]]; [discriminate|].
+  (* decodeRef yields a good child and leaves bytes *)
+  assert (Href : forall b c' r, bytesb b = true -> dref f b = DOk (c', r) -> pgood c' /\ bytesb r = true).
+  { intros b c' r Hbb. unfold dref. destruct (Raw.split b) as [[[k v] r']|] eqn:E; [|discriminate].
+    destruct (split_bytes b k v r' Hbb E) as [_ Hr'].
+    destruct k.
+    - rewrite ref_len_cases. destruct (Nat.eqb (length v) 0); [intros X; inversion X; subst; split; [apply pgood_empty|exact Hr']|].
+      destruct (Nat.eqb (length v) 32); [intros X; inversion X; subst; split; [apply pgood_hash|exact Hr']|discriminate].
+    - rewrite ref_len_cases. destruct (Nat.eqb (length v) 0); [intros X; inversion X; subst; split; [apply pgood_empty|exact Hr']|].
+      destruct (Nat.eqb (length v) 32); [intros X; inversion X; subst; split; [apply pgood_hash|exact Hr']|discriminate].
+    - cbv zeta. destruct (Nat.leb 32 (length b - length r')); [discriminate|].
+      destruct (decode_node_f f b) as [n'|] eqn:En; [|discriminate].
+      intros X; inversion X; subst. split; [eapply IH; eassumption|exact Hr']. }
+  unfold dbody in Hd. destruct (c =? 2).
+  - destruct (split_string elems) as [[kbuf rest]|] eqn:Ess; [|discriminate].
+    destruct (split_string_bytes _ _ _ He Ess) as [Hkb Hrest]. cbv zeta in Hd.
+    pose proof (compact_to_hex_wf kbuf Hkb) as Hwf.
+    destruct (has_term (compact_to_hex kbuf)) eqn:Ht.
+    + destruct (split_string rest) as [[val r]|]; [|discriminate]. inversion Hd; subst. apply pgood_leaf.
+    + destruct (dref f rest) as [[r x]|] eqn:Er; [|discriminate]. inversion Hd; subst.
+      apply pgood_ext; [|exact (proj1 (Href _ _ _ Hrest Er))].
+      unfold wf_hex in Hwf. rewrite Ht in Hwf. exact Hwf.
+  - destruct (c =? 17); [|discriminate].
+    assert (Hch : forall i b cs r, bytesb b = true -> dchildren f i b = DOk (cs, r) ->
+                    length cs = i /\ Forall pgood cs /\ bytesb r = true).
+    { induction i as [|i IHi]; intros b cs r Hbb Hc.
+      - inversion Hc; subst. repeat split; [constructor|exact Hbb].
+      - rewrite dchildren_S in Hc. destruct (dref f b) as [[cld rest]|] eqn:Er; [|discriminate].
+        destruct (Href _ _ _ Hbb Er) as [Hg Hrb].
+        destruct (dchildren f i rest) as [[l rest']|] eqn:Ec; [|discriminate].
+        inversion Hc; subst. destruct (IHi _ _ _ Hrb Ec) as (HL & Hall & Hr).
+        repeat split; [cbn [length]; lia|constructor; assumption|exact Hr]. }
+    destruct (dchildren f 16 elems) as [[cs rest]|] eqn:Ec; [|discriminate].
+    destruct (Hch _ _ _ _ He Ec) as (HL & Hall & _).
+    destruct (split_string rest) as [[val r]|]; [|discriminate]. inversion Hd; subst.
+    apply pgood_full; [exact HL|exact Hall|]. destruct val; [left; reflexivity|right; eauto].
+Qed.
+
+(* verify_never_panics: for EVERY database of byte strings (also one that is not
+   keyed by hash), every root and every byte key, no index-out-of-range or
+   unexpected node type *)
+Theorem verify_never_panics db root key :
+  (forall k b, In (k, b) db -> bytesb b = true) -> forallb byteb key = true ->
+  verify_proof root key db <> VErr VPanic.
+Proof.
+  intros Hdb Hkey. unfold verify_proof. pose proof (keybytes_to_hex_valid key Hkey) as Hk.
+  generalize (verify_fuel (keybytes_to_hex key) db) as f. generalize 0%nat as i. revert Hk.
+  generalize (keybytes_to_hex key) as k. generalize root as want.
+  intros want k Hk i f. revert want k Hk i.
+  induction f as [|f IH]; intros want k Hk i; [discriminate|].
+  rewrite verify_f_S. destruct (db_get db want) as [buf|] eqn:G; [|discriminate].
+  apply db_get_in in G. specialize (Hdb _ _ G).
+  destruct (proof_decode buf) as [n|] eqn:D; [|discriminate].
+  destruct (decode_pgood _ _ _ Hdb D k Hk) as (kr & cld & -> & [->|[[v ->]|(h & -> & Hkr)]]);
+    try discriminate. apply IH, Hkr.
+Qed.
+
+(* the walk does not terminate on a database holding a reference cycle; without
+   a hash check such a database is easy to write down (mis-keyed), with a hash-keyed
+   one it needs a Keccak cycle *)
+Example verify_loops_on_cycle :
+  let root := repeat 17 32 in
+  verify_proof root [1; 2] [(root, [226; 0; 160] ++ root)] = VErr VLoop.
+Proof. vm_compute. reflexivity. Qed.
